@@ -9,6 +9,7 @@ rsync -a --exclude .git /repo/ $S/ && cd $S && go generate ./internal/i18n/ ./in
 cp "$demo" $S/$dest/
 echo "== without patch: demo"; go test -vet=off -count=1 "$@" 2>&1 | tail -4; r0=${PIPESTATUS[0]}
 patch -p1 -s < "$patch" || { echo "PATCH DOES NOT APPLY"; exit 2; }
+go generate ./internal/i18n/ ./internal/cli/app/ >/dev/null || exit 2
 echo "== with patch: build"; go build ./... ; rb=$?
 echo "== with patch: demo"; go test -vet=off -count=1 "$@" 2>&1 | tail -6; r1=${PIPESTATUS[0]}
 rm $S/$dest/$(basename "$demo")
